@@ -205,7 +205,16 @@ def generate(rng, n=20, prefix="M"):
             out.append({"name": name, "text": text, "kind": "int", "ty": e.ty, "val": e.val, "v64": e.v64, "unsigned": e.unsigned})
             env.append((name, e))
         elif r < 0.72:
-            f = rng.choice(["1.5", "0.25f", "1e10", "3.0e-3", ".5", "2.", "0x1p4", "0x1.8p1", "1.0L", "123456789.125", "1e308", "4.9e-324"])
+            f = rng.choice(["1.5", "0.25f", "1e10", "3.0e-3", ".5", "2.", "0x1p4", "0x1.8p1", "1.0L", "123456789.125", "1e308", "4.9e-324",
+                            "12345678901234567890.0", "1.2345678901234567e+200", "0.1", "2.2250738585072014e-308", "1.7976931348623157e308",
+                            "9007199254740993.0", "5e-324", "0.30000000000000004"])
+            if rng.random() < 0.4:
+                # a random double in its shortest round-trip decimal form (up to 17 significant digits), over the whole exponent range
+                import struct
+                bits = rng.getrandbits(64) & 0x7FFFFFFFFFFFFFFF
+                d_ = struct.unpack("<d", struct.pack("<Q", bits))[0]
+                if d_ == d_ and d_ not in (float("inf"),) and d_ != 0.0:
+                    f = repr(d_)
             neg = rng.random() < 0.3
             out.append({"name": name, "text": ("-" if neg else "") + f, "kind": "float"})
         elif r < 0.84:
